@@ -274,9 +274,66 @@ def _failure_job(idx):
     return res
 
 
+def _type_failure_job(idx):
+    """Ill-formed sort requests to the real TypeManager (a sort constructor used where a sort is needed, a non-sort
+    as component): rejected, rejected again, and the tables of the manager are what they were."""
+    cases = ["ArrayType(Int, Pair/2)", "ArrayType(Pair/2, Int)", "FunctionType(Pair/2, [Int])", "FunctionType(Int, [Pair/2])",
+             "FunctionType(Int, [Int, 3])", "ArrayType(Int, 'Real')", "BVType('8')", "Pair/2(Int)"]
+    name = cases[idx]
+
+    def one(ex):
+        it, w, env = _fresh(ex)
+        tm = w.env.attrs["_type_manager"]
+        INT_, = (w.tyobj(INT),)
+        pair = it.call(it.getattr(tm, "Type"), ["Pair", 2])
+
+        def request():
+            if name == "ArrayType(Int, Pair/2)":
+                return it.call(it.getattr(tm, "ArrayType"), [INT_, pair])
+            if name == "ArrayType(Pair/2, Int)":
+                return it.call(it.getattr(tm, "ArrayType"), [pair, INT_])
+            if name == "FunctionType(Pair/2, [Int])":
+                return it.call(it.getattr(tm, "FunctionType"), [pair, [INT_]])
+            if name == "FunctionType(Int, [Pair/2])":
+                return it.call(it.getattr(tm, "FunctionType"), [INT_, [pair]])
+            if name == "FunctionType(Int, [Int, 3])":
+                return it.call(it.getattr(tm, "FunctionType"), [INT_, [INT_, 3]])
+            if name == "ArrayType(Int, 'Real')":
+                return it.call(it.getattr(tm, "ArrayType"), [INT_, "Real"])
+            if name == "BVType('8')":
+                return it.call(it.getattr(tm, "BVType"), ["8"])
+            return it.call(pair, [INT_])          # wrong number of arguments for the sort constructor
+
+        def tables():
+            return dict((k, dict(v)) for k, v in tm.attrs.items() if isinstance(v, dict))
+        before = tables()
+        outs = []
+        for _ in range(2):
+            try:
+                r = request()
+                outs.append("returned %s" % (w.to_str(it, r)[1] if isinstance(r, AObj) else r,))
+            except AbsRaise as ex_:
+                outs.append("raises " + ex_.cls_name)
+            after = tables()
+            for k in before:
+                if len(after.get(k, {})) != len(before[k]):
+                    return ("bad", "type-trace|%s" % name, "the request %s is %s but the table %s of the type manager grew: a later identical "
+                            "request finds the entry" % (name, outs[-1], k))
+        if not outs[0].startswith("raises"):
+            return ("bad", "type-accepted|%s" % name, "the ill-formed sort request %s %s" % (name, outs[0]))
+        if outs[1] != outs[0]:
+            return ("bad", "type-second|%s" % name, "the request %s %s the first time and %s the second time" % (name, outs[0], outs[1]))
+        return ("ok", "sort request " + name, "rejected twice (%s), tables unchanged" % outs[0])
+    try:
+        paths = Explorer(max_paths=4).run(one)
+    except Unsupported as e:
+        return [("unsupported", name, str(e))]
+    return [p.value if p.kind == "return" else ("unsupported", name, "%s %s" % (p.kind, str(p.value)[:200])) for p in paths]
+
+
 def failure_results():
     out = []
-    for r in parallel_map(_failure_job, list(range(len(ill_typed())))):
+    for r in parallel_map(_failure_job, list(range(len(ill_typed())))) + parallel_map(_type_failure_job, list(range(8))):
         out.extend(r)
     return out
 
